@@ -72,6 +72,12 @@ class Prop:
                 continue
             if tb_field(o, 'valid') != '1' or tb_field(o, 'actual') != tb_field(o, 'expected'):
                 ctx.fail('created tag block is not valid / checksums differ', inp, 'valid=1', o[:120], {'kind': 'rt-valid'})
+            # the checksum written by create() is the XOR of the content (computed here, not by the library)
+            rawb = bytes.fromhex(raw)
+            content, _, chk = rawb.rpartition(b'*')
+            if rawb.count(b'*') != 1 or not re.fullmatch(rb'[0-9A-Fa-f]{1,2}', chk) or int(chk, 16) != xor(content):
+                ctx.fail('the checksum of a created tag block is not the XOR of its content', inp,
+                         '%X' % xor(content), chk.decode('latin-1'), {'kind': 'rt-checksum'})
             for f, v in kv:
                 got = tb_field(o, KEY[f])
                 exp = v.decode('latin-1') if f == 'group' else impl.hx(v)
@@ -125,6 +131,10 @@ class Prop:
         outs = ctx.corr(ops, impl.step, 'tagblock.parse')
         for (c, exp), o in zip(cases, outs):
             if exp is None:
+                # no checksum / not a hexadecimal one / two of them: whatever else happens, the block is not valid
+                if not o.startswith('ERR') and tb_field(o, 'valid') == '1' and c.count(b'*') != 1:
+                    ctx.fail('a tag block without exactly one checksum is reported valid', {'cmd': 'parse', 'raw': c.hex()},
+                             'an error or valid=0', o[:120], {'kind': 'valid-flag'})
                 continue
             if o.startswith('ERR') or (tb_field(o, 'valid') == '1') != exp:
                 ctx.fail('validity flag differs from "checksum equals XOR of the content"', {'cmd': 'parse', 'raw': c.hex()},
